@@ -8,6 +8,7 @@
 #include <stdbool.h>
 
 #define BT_ASSERT(e) __CPROVER_assert((e), "repo assert: " #e)
+#define BT_STATIC_ASSERT(e, ...) __CPROVER_assert((e), "repo static_assert: " #e)
 #define BT_CANARY() __CPROVER_assert(0, "VACUITY_CANARY")
 #ifndef KNOWN_EXCLUDE
 #define KNOWN_EXCLUDE 1
